@@ -1,7 +1,7 @@
 (* C10 — length, count, value, match and search behave as RFC 9535 defines.  Statements only. *)
 From Coq Require Import List NArith ZArith Bool.
 From JP Require Import Base Ast Eval ValueModel Spec Known WellFormed Regex Entry DataFacts SelFacts
-  ValueFacts Refine RegexFacts RegexSem Build Purity GenParse GenBuild FragParse FilterParse FilterBuild StringLevel.
+  ValueFacts Refine RegexFacts RegexSem Build Purity GenParse GenBuild FragParse FilterParse FilterBuild StringLevel SingularFacts.
 Import ListNotations.
 
 (* length(): Unicode scalar values of a string, elements of an array, members of an object,
@@ -22,6 +22,25 @@ Theorem C10_value : forall A,
   ll A -> vshape (fn_value A) /\ vt_of (fn_value A) = rfc_value (nodes_of A).
 Proof. exact fn_value_spec. Qed.
 Print Assumptions C10_value.
+
+(* over a singular query (name and index segments only): count() is 0 or 1, and value(@.path) is the very operand @.path of a
+   comparison - Nothing exactly when the path selects no node - for every document and current node (SingularFacts.v) *)
+Theorem C10_count_of_singular_query : forall root q cur, singular q = true ->
+  let c := r_tfun rx_spec_full rx_spec_sub jeqb false root (FnCount (ArgTest (TRel q))) cur in
+  c = RValue (Some (jint 0)) \/ c = RValue (Some (jint 1)).
+Proof. exact (count_of_singular rx_spec_full rx_spec_sub jeqb false). Qed.
+Print Assumptions C10_count_of_singular_query.
+Theorem C10_value_of_singular_query_is_the_operand : forall root l cur,
+  r_tfun rx_spec_full rx_spec_sub jeqb false root (FnValue (ArgTest (TRel (sq_segs l)))) cur
+  = RValue (r_comparable rx_spec_full rx_spec_sub jeqb false root (CSq (SqCur l)) cur).
+Proof. exact (value_of_singular_is_operand rx_spec_full rx_spec_sub jeqb false). Qed.
+Print Assumptions C10_value_of_singular_query_is_the_operand.
+Example C10_singular_example :
+  r_tfun rx_spec_full rx_spec_sub jeqb false JNull (FnCount (ArgTest (TRel (sq_segs [SqName [97]%N])))) (JObj [([97]%N, JNull)])
+    = RValue (Some (jint 1))
+  /\ r_tfun rx_spec_full rx_spec_sub jeqb false JNull (FnValue (ArgTest (TRel (sq_segs [SqName [97]%N])))) (JObj [([97]%N, JNull)])
+    = RValue (Some JNull).
+Proof. vm_compute. split; reflexivity. Qed.
 
 (* the whole function layer inside a query: for every well-typed function expression the model
    computes the RFC value (ValueType functions) or truth value (LogicalType functions); results
